@@ -373,3 +373,19 @@ Definition long_line (tag : string) (fmt : nat -> nat -> bool -> format -> strin
   line tag id (join " || " (repeat one reps)).
 Definition line_m_long := long_line "M" long_fmt_m.
 Definition line_s_long := long_line "S" long_fmt_s.
+
+(* ====================================================================================
+   Sequences: several geometry tables written one after the other to the SAME path, a set of
+   plugins (one per format) built after every write and all kept alive, then several calls with the
+   same request (same origin / destination) but different routes, each on the plugins of one build.
+   The code modelled is a function of (table at build time, route of this call) only - no state is
+   carried from one build or one call to the next - so the model and the specification evaluate
+   every call on its own: call k under format f renders route k over the table of its build. *)
+Definition seq_line (tag : string)
+           (chainf : list (option (list (Z * Z))) -> request -> search_result Z -> list pcfg -> string)
+           (id : Z) (tables : list (list (option (list (Z * Z))))) (req : request)
+           (calls : list (nat * list trav)) : string :=
+  line tag id (join " | " (flat_map (fun c =>
+     map (fun f => chainf (nth (fst c) tables []) req (SOk [snd c] []) [CTraversal (Some f) None]) all_formats) calls)).
+Definition line_m_seq := seq_line "M" (fun rows req sr chain => model_chain rows "" req sr chain).
+Definition line_s_seq := seq_line "S" (fun rows req sr chain => spec_chain rows [] req sr chain).
